@@ -443,7 +443,11 @@ func main() {
 			}
 			m.Extra[k] = v
 		}
-		m.HarnessErrors = append(m.HarnessErrors, r.HarnessErrors...)
+		for _, h := range r.HarnessErrors {
+			if !contains(m.HarnessErrors, h) {
+				m.HarnessErrors = append(m.HarnessErrors, h)
+			}
+		}
 	}
 	if len(m.Samples) > 8 {
 		m.Samples = m.Samples[:8]
